@@ -472,6 +472,11 @@ func (b *BaseStore) Load(ctx context.Context, amount int) error {
 		amount = *b.options.MaxHistory
 	}
 
+	// a non-positive amount means "everything"
+	if amount <= 0 {
+		amount = -1
+	}
+
 	var localHeads, remoteHeads []*entry.Entry
 	localHeadsBytes, err := b.Cache().Get(ctx, datastore.NewKey("_localHeads"))
 	if err != nil && err != datastore.ErrNotFound {
@@ -578,8 +583,23 @@ func (b *BaseStore) Load(ctx context.Context, amount int) error {
 
 			span.AddEvent("store-head-loaded")
 
+			// Join keeps the `size` most recent entries and cannot be given a
+			// size larger than what the joined log will hold
+			size := amount
+			if size > 0 {
+				total := oplog.Len()
+				for _, e := range l.GetEntries().Slice() {
+					if _, ok := oplog.Get(e.GetHash()); !ok {
+						total++
+					}
+				}
+				if size >= total {
+					size = -1
+				}
+			}
+
 			span.AddEvent("store-heads-joining")
-			if _, inErr = oplog.Join(l, amount); inErr != nil {
+			if _, inErr = oplog.Join(l, size); inErr != nil {
 				span.AddEvent("store-heads-joining-failed")
 				// err = fmt.Errorf("unable to join log: %w", err)
 				// TODO: log
